@@ -53,6 +53,18 @@ Theorem C16_read_all_returns_log : forall w r hs s sterm,
 Proof. exact read_all_returns_log. Qed.
 Print Assumptions C16_read_all_returns_log.
 
+(** History form: after any well-formed history ReadAll cannot fail on a missing block body —
+    every live block entry was written together with its block and block bodies are never
+    removed — so a restarted node hands the consensus library exactly the acknowledged log. *)
+Theorem C16_read_all_after_history : forall ops w hs s sterm,
+  history_wf (mk_rlog 0 []) ops -> wrun wal_empty ops = Some w ->
+  let r := spec_run (mk_rlog 0 []) ops in
+  w_hs w = Some hs -> base r <= s -> s <= base r + N.of_nat (length (ents r)) ->
+  (forall e, In e (skipn (N.to_nat (s - base r)) (ents r)) -> e_type e <= 2 /\ sterm <= e_term e) ->
+  read_all w (Some (s, sterm)) = ROk (w_id w, hs, map to_raft (skipn (N.to_nat (s - base r)) (ents r))).
+Proof. exact read_all_after_history. Qed.
+Print Assumptions C16_read_all_after_history.
+
 (** Every read of the observation is a function of the content of the durable store only:
     a restarted node (new ChainDB on the same store) reads the same WAL. *)
 Theorem C16_restart_same_log : forall a b maxi hashes ccids,
